@@ -3,7 +3,9 @@
 //! header: `cache [max=<n>] [policy=lru|lfu|fifo] [ttl=<ticks>] [shared=0|1|2] [nsvc=<n>] [listen=1] [name=<s>]
 //!                [via=builder|new|default] [tick=us]`   (one tick = 1 ms unless `tick=us`)
 //!   max / policy / ttl   absent = the setter is NOT called: the builder's documented default applies (100 / LRU / none).
-//!             `ttl=0` is `Duration::ZERO` (a TTL of zero, not "no TTL")
+//!             `ttl=0` is `Duration::ZERO` (a TTL of zero, not "no TTL"). `ttl=<n>` is EXACTLY n ticks for every
+//!             natural n a `Duration` can hold (parsed as u128: up to 2^64 s, far beyond what `Instant + ttl` can
+//!             represent - `world::ticks` would saturate at 2^64 ns); `ttl=max` is `Duration::MAX` ("never expires")
 //!   shared=0  one layer value built by `CacheLayer::builder()…build()`: every service built from it by `layer()` has
 //!             its OWN store (layer.rs, "State Isolation")
 //!   shared=1  `SharedCacheLayer::builder()…build()`: every service built from the layer value shares ONE store
@@ -39,6 +41,7 @@ use crate::world::*;
 use std::collections::BTreeMap;
 use std::sync::atomic::{AtomicU64, Ordering};
 use std::sync::Arc;
+use std::time::Duration;
 use tower::{Layer, Service};
 use tower_resilience_cache::{
     Cache, CacheConfigBuilder, CacheError, CacheLayer, EvictionPolicy, SharedCacheConfigBuilder, SharedCacheLayer,
@@ -74,6 +77,20 @@ fn policy_of(s: &str) -> EvictionPolicy {
     }
 }
 
+/// `ttl=<n>`: exactly n ticks (any n; beyond `Duration::MAX` it is `Duration::MAX`); `ttl=max`: `Duration::MAX`
+fn ttl_of(s: &str) -> Option<Duration> {
+    if s == "max" {
+        return Some(Duration::MAX);
+    }
+    let n: u128 = s.parse().ok()?;
+    let per = (1_000_000_000 / tick_ns().max(1)) as u128; // ticks per second
+    let secs = n / per;
+    if secs > u64::MAX as u128 {
+        return Some(Duration::MAX);
+    }
+    Some(Duration::new(secs as u64, ((n % per) as u64 * tick_ns()) as u32))
+}
+
 /// the same sequence of setter calls on either builder type
 macro_rules! configure {
     ($b:expr, $kv:expr, $counts:expr) => {{
@@ -84,8 +101,8 @@ macro_rules! configure {
         if let Some(p) = $kv.get("policy") {
             b = b.eviction_policy(policy_of(p));
         }
-        if let Some(t) = $kv.opt_u64("ttl") {
-            b = b.ttl(ticks(t));
+        if let Some(t) = $kv.get("ttl").and_then(ttl_of) {
+            b = b.ttl(t);
         }
         if let Some(n) = $kv.get("name") {
             b = b.name(n);
